@@ -371,4 +371,169 @@ theorem C19_decimal_lossy_lemire (slow : SlowRadix) (feats : Features) (hcompact
     exact lossy_number_lemire slow hF ⟨feats, fmt, false⟩ hcompact hr' hb' n hw64 hI (fun _ => hw1) _ _ hlpos
       (C01Compact.litFrac_tv_truncated _ hr' n hmany hs hN hw hq)
 
+/-! ## Bellerophon: decimal in `compact` builds, and every generic radix -/
+
+open LexVerif.Proof.Bell in
+/-- **lossy Bellerophon for one `Number`**, any radix with Bellerophon tables (`IsBellTable`: 10 under `compact`, the 29
+generic radices in `radix` builds): the result is `roundNE` of the true value or an adjacent pattern, with the sign of
+the literal. The fast-path contract is a hypothesis (`fastContract_decimal`, `fastContract_radix`). -/
+theorem lossy_number_bellerophon (slow : SlowRadix) {F : FTy} (hF : IsLemireFloat F) (c : Cfg)
+    (hback : backend c.feats c.mantissaRadix = .bellerophon)
+    (hP : C05.IsBellTable (Bellerophon.powersOf c.feats c.mantissaRadix) c.mantissaRadix)
+    (n : Number) (hw : n.mantissa < 2 ^ 64) (hw55 : n.manyDigits = true → 2 ^ 55 ≤ n.mantissa)
+    (hfnp : FastPath.tryFastPath (smallSetOf c.feats) F c.mantissaRadix c.exponentBase (numOf n) ≠ .panic)
+    (num den : Nat) (hd : 0 < den)
+    (hfast : ∀ v, FastPath.tryFastPath (smallSetOf c.feats) F c.mantissaRadix c.exponentBase (numOf n) = .some v →
+      v = roundSigned F.fmt n.isNegative num den)
+    (htv : TrueValue c.mantissaRadix (numOf n) num den) :
+    ∃ vl, numberToFloat slow c F n true = some vl ∧ Close F vl (roundSigned F.fmt n.isNegative num den) := by
+  obtain ⟨fp, h1, h2, h3, h4⟩ := C19.lossy_bellerophon_neighbour F hF _ c.mantissaRadix hP (numOf n) hw hw55 num den hd htv
+  have hm : moderatePath c F (numOf n) true = .ok fp := by
+    unfold moderatePath; rw [hback]; exact h1
+  obtain ⟨vl, e1, e2⟩ := lossy_number_core slow c n num den hfnp hfast hm h2
+  exact ⟨vl, e1, close_of hF _ num den _ vl hd e2 h3 h4⟩
+
+open LexVerif.Proof.Bell in
+/-- **C19, decimal, `compact` builds** (moderate path: Bellerophon): the lossy pipeline prints the oracle's line, or `ok`
+with the same count and bits of the same sign at most one pattern away from the correctly rounded ones. -/
+theorem C19_decimal_lossy_compact (slow : SlowRadix) (feats : Features) (hcompact : feats.compact = true)
+    (fmt : Format) (hr : fmt.mantissaRadix = 10) (hb : fmt.exponentBase = 10)
+    (hclass : feats.format = false ∨ C12.SepPrefixFree fmt)
+    (o : POpts) {F : FTy} (hF : IsLemireFloat F) (isPartial : Bool) (s : List Nat)
+    (h256 : ∀ x ∈ s, x < 256) (hlen : s.length < 2 ^ 60) :
+    LossyRel (Close F) (parseFloatModel feats fmt o isPartial F.fmt s)
+      (parseFloatAlgoModel slow feats fmt o isPartial F s true) := by
+  apply lossyRel_of_numbers
+  intro hval n cnt hp
+  have hdp := C01Final.dp_not_digit feats fmt o (by omega) hval
+  have hr' : (⟨feats, fmt, false⟩ : Cfg).mantissaRadix = 10 := hr
+  have hb' : (⟨feats, fmt, false⟩ : Cfg).exponentBase = 10 := hb
+  have hlpos := litFrac_den_pos (r := 10) (b := 10) (by decide) (by decide) (numberLit ⟨feats, fmt, false⟩ n)
+  have hf := wf_of hF
+  have hback : backend (⟨feats, fmt, false⟩ : Cfg).feats (⟨feats, fmt, false⟩ : Cfg).mantissaRadix = .bellerophon := by
+    rw [hr']; exact backend_bellerophon_compact _ hcompact
+  have hP : C05.IsBellTable (Bellerophon.powersOf (⟨feats, fmt, false⟩ : Cfg).feats
+      (⟨feats, fmt, false⟩ : Cfg).mantissaRadix) (⟨feats, fmt, false⟩ : Cfg).mantissaRadix := by
+    rw [hr']
+    refine Or.inr ⟨by decide, ?_⟩
+    unfold Bellerophon.powersOf
+    simp only [hcompact, if_true]
+  cases hmany : n.manyDigits with
+  | false =>
+    obtain ⟨hx, _, _⟩ := C01Number.number_exact_of_syntax ⟨feats, fmt, false⟩ rfl hclass hr hb o hdp isPartial s _
+      h256 hlen n cnt hp hmany
+    rw [numberBits_decimal hF _ hr' hb' n (fun _ => hx.2.2)]
+    have htv := tv_of_ratEq _ hr' hb' n hmany hx.2.2
+    have hfc := fastContract_decimal hF ⟨feats, fmt, false⟩ hr' n
+    refine lossy_number_bellerophon slow hF ⟨feats, fmt, false⟩ hback hP n hx.1
+      (fun h => by rw [hmany] at h; exact absurd h (by decide)) hfc.1 _ _ hlpos (fun v hv => ?_)
+      (by rw [hr']; exact htv)
+    rw [hfc.2 v hv, hb']
+    unfold roundSigned
+    have hre := hx.2.2
+    unfold RatEq at hre
+    rw [hr', hb'] at hre
+    rw [roundNE_congr' hf (powFrac_den_pos (by decide) _ _) hlpos hre]
+  | true =>
+    obtain ⟨hs, hN, hw, hw1, hwlt, hq, _, _, _, _⟩ := C01Number.number_truncated_of_syntax ⟨feats, fmt, false⟩
+      rfl hclass hr hb o hdp isPartial s _ h256 hlen n cnt hp hmany
+    rw [numberBits_decimal hF _ hr' hb' n (fun h => by rw [hmany] at h; exact absurd h (by decide))]
+    have hw64 : n.mantissa < 2 ^ 64 := by
+      have : (10 : Nat) ^ 19 < 2 ^ 64 := by decide
+      omega
+    have hnone := fast_none_of_many (smallSetOf feats) F (⟨feats, fmt, false⟩ : Cfg).mantissaRadix
+      (⟨feats, fmt, false⟩ : Cfg).exponentBase (numOf n) hmany
+    refine lossy_number_bellerophon slow hF ⟨feats, fmt, false⟩ hback hP n hw64
+      (fun _ => Nat.le_trans (by decide) hw1) (by rw [hnone]; simp) _ _ hlpos
+      (fun v hv => by rw [hnone] at hv; exact absurd hv (by simp))
+      (by rw [hr']; exact C01Compact.litFrac_tv_truncated _ hr' n hmany hs hN hw hq)
+
+/-! ## power-of-two radices, one `Number` -/
+
+/-- **lossy `binary` for one untruncated `Number`** (radices 2, 4, 8, 16, 32, mixed exponent bases included): the lossy
+result **is** the correctly rounded one -/
+theorem lossy_number_pow2_exact (slow : SlowRadix) {F : FTy} (hF : IsLemireFloat F) (c : Cfg)
+    (hp : c.feats.powerOfTwo = true) (hr : C05.IsPow2 c.mantissaRadix) (hb : C05.IsPow2 c.exponentBase)
+    (n : Number) (hw : n.mantissa < 2 ^ 64) (he : C05.ExpInRange n.exponent) :
+    numberToFloat slow c F n true = some (roundSigned F.fmt n.isNegative
+      (powFrac c.exponentBase n.exponent n.mantissa).1 (powFrac c.exponentBase n.exponent n.mantissa).2) := by
+  obtain ⟨p, eb, lay⟩ := layout_of hF
+  have hS := radixSet_of_pow2 c.feats hp
+  have hfc := fastContract_radix hF c hS (pow2_mem_radices hS hr) n
+  obtain ⟨fp, a1, a2, a3⟩ := C19.lossy_pow2_exact lay hb (numOf n) hw he
+  have hm : moderatePath c F (numOf n) true = .ok fp := by
+    unfold moderatePath; rw [backend_binary _ hp hr]; exact a1
+  obtain ⟨vl, e1, e2⟩ := lossy_number_core slow c n _ _ hfc.1 hfc.2 hm a2
+  rw [e1]
+  rcases e2 with e2 | e2
+  · rw [e2]
+  · rw [e2]
+    have : (numOf n).mantissa = n.mantissa ∧ (numOf n).exponent = n.exponent := ⟨rfl, rfl⟩
+    rw [this.1, this.2] at a3
+    rw [a3]; rfl
+
+/-- **lossy `binary` for one truncated `Number`** (`u64_step` digits, at least `p` bits): the correctly rounded float of
+any true value in `[M, M+1)·base^e`, or the pattern just below it -/
+theorem lossy_number_pow2 (slow : SlowRadix) {F : FTy} (hF : IsLemireFloat F) (c : Cfg)
+    (hp : c.feats.powerOfTwo = true) (hr : C05.IsPow2 c.mantissaRadix) (hb : C05.IsPow2 c.exponentBase)
+    (n : Number) (hmany : n.manyDigits = true) (hM : 2 ^ F.fmt.p ≤ n.mantissa) (hw : n.mantissa + 1 < 2 ^ 64)
+    (he : C05.ExpInRange n.exponent) (num den : Nat) (hd : 0 < den)
+    (hlo : (powFrac c.exponentBase n.exponent n.mantissa).1 * den ≤ num * (powFrac c.exponentBase n.exponent n.mantissa).2)
+    (hhi : num * (powFrac c.exponentBase n.exponent (n.mantissa + 1)).2 <
+      (powFrac c.exponentBase n.exponent (n.mantissa + 1)).1 * den) :
+    ∃ vl, numberToFloat slow c F n true = some vl ∧ CloseDown F vl (roundSigned F.fmt n.isNegative num den) := by
+  obtain ⟨p, eb, lay⟩ := layout_of hF
+  have hfp : F.fmt.p = p := by rw [lay.fmt]
+  obtain ⟨fp, a1, a2, a3⟩ := C19.lossy_pow2_neighbour lay hb (numOf n) (by rw [← hfp]; exact hM) hw he num den hd hlo hhi
+  have hm : moderatePath c F (numOf n) true = .ok fp := by
+    unfold moderatePath; rw [backend_binary _ hp hr]; exact a1
+  have hnone := fast_none_of_many (smallSetOf c.feats) F c.mantissaRadix c.exponentBase (numOf n) hmany
+  obtain ⟨vl, e1, e2⟩ := lossy_number_core slow c n num den (by rw [hnone]; simp)
+    (fun v hv => by rw [hnone] at hv; exact absurd hv (by simp)) hm a2
+  exact ⟨vl, e1, closeDown_of hF _ num den _ vl hd e2 (by rcases a3 with h | h <;> omega)
+    (by rcases a3 with h | h <;> omega)⟩
+
+/-! ## the full statement -/
+
+/-- **C19, decimal — proved** (`C19_lossy_decimal_proved`): for every build, every separator-free decimal format class of
+C12, all options, `f32`/`f64`, complete and partial parser, every input shorter than `2^60` bytes and **any** stand-in
+for `slow_radix` (lossy parsing never calls it): the lossy pipeline accepts, rejects and counts exactly as the oracle,
+special values and `ok 0` are printed identically, and the bits of a parsed number have the oracle's sign and a
+magnitude at most one pattern from the correctly rounded one. -/
+def C19_lossy_decimal : Prop :=
+  ∀ (slow : SlowRadix) (feats : Features) (fmt : Format), fmt.mantissaRadix = 10 → fmt.exponentBase = 10 →
+    (feats.format = false ∨ C12.SepPrefixFree fmt) →
+    ∀ (o : POpts) (F : FTy), IsLemireFloat F → ∀ (isPartial : Bool) (s : List Nat),
+      (∀ x ∈ s, x < 256) → s.length < 2 ^ 60 →
+      LossyRel (Close F) (parseFloatModel feats fmt o isPartial F.fmt s)
+        (parseFloatAlgoModel slow feats fmt o isPartial F s true)
+
+theorem lossyRel_mono {R S : Nat → Nat → Prop} (h : ∀ a b, R a b → S a b) {x y : String} (hr : LossyRel R x y) :
+    LossyRel S x y := by
+  rcases hr with hr | ⟨vl, ve, cnt, h1, h2, h3⟩
+  · exact Or.inl hr
+  · exact Or.inr ⟨vl, ve, cnt, h1, h2, h _ _ h3⟩
+
+theorem C19_lossy_decimal_proved : C19_lossy_decimal := by
+  intro slow feats fmt hr hb hclass o F hF isPartial s h256 hlen
+  cases hc : feats.compact with
+  | false =>
+    exact lossyRel_mono (fun _ _ h => h.close)
+      (C19_decimal_lossy_lemire slow feats hc fmt hr hb hclass o hF isPartial s h256 hlen)
+  | true => exact C19_decimal_lossy_compact slow feats hc fmt hr hb hclass o hF isPartial s h256 hlen
+
+/-- **the full property** (kept as a `Prop`): the same for **every** radix the format may name. Proved: the decimal
+instance (`C19_lossy_decimal_proved`) and, per `Number`, the other radices (`lossy_number_pow2_exact`,
+`lossy_number_pow2`, `lossy_number_bellerophon`); open: the counterpart of `Props.C01Number` for non-decimal radices —
+that the syntax layer's `mantissa` / `exponent` words are the (truncated) value of the digit slices, which is what
+turns the per-`Number` theorems into this API statement. -/
+def C19_lossy_full : Prop :=
+  ∀ (slow : SlowRadix) (feats : Features) (fmt : Format),
+    (formatError feats fmt).isNone → checkRadix feats fmt = true →
+    (feats.format = false ∨ C12.SepPrefixFree fmt) →
+    ∀ (o : POpts) (F : FTy), IsLemireFloat F → ∀ (isPartial : Bool) (s : List Nat),
+      (∀ x ∈ s, x < 256) → s.length < 2 ^ 60 →
+      LossyRel (Close F) (parseFloatModel feats fmt o isPartial F.fmt s)
+        (parseFloatAlgoModel slow feats fmt o isPartial F s true)
+
 end LexVerif.Props.C19Final
